@@ -21,6 +21,7 @@ import (
 const repoName = "remote"
 
 type World struct {
+	FileRemote bool // origin is a file:// URL and there is no LFS server
 	Linked  string   // directory of the linked worktree, if one was added
 	cleanup []func() // run by Close (scratch outside the world's root)
 	Env     *gitenv.Env
@@ -42,6 +43,7 @@ type World struct {
 
 // WorldOpts are concretisation-only dimensions: the spec says the answer does not depend on them.
 type WorldOpts struct {
+	FileRemote bool
 	Attr        string   // attributes for *.bin, e.g. "filter=lfs diff=lfs merge=lfs -text"
 	Ambient     []string // "section.key=value" entries added to the user's global git config
 	CommitAttrs bool     // track through a committed .gitattributes (root commit) instead of .git/info/attributes
@@ -117,14 +119,18 @@ func NewWorldOpts(root, binDir string, seed int64, o WorldOpts) (*World, error) 
 	if r := env.Git(w.Remote, "config", "receive.denyDeleteCurrent", "ignore"); !r.OK() {
 		return nil, fmt.Errorf("remote config: %s", r.All())
 	}
+	w.FileRemote = o.FileRemote
 	for _, args := range [][]string{
-		{"remote", "add", "origin", w.Remote},
+		{"remote", "add", "origin", w.RemoteURL()},
 		{"config", "lfs.url", srv.LFSURL(repoName, "")},
 		{"config", "lfs.transfer.maxretries", "1"},
 		{"config", "lfs.transfer.maxretrydelay", "0"},
 		{"config", "lfs.locksverify", "false"},
 		{"lfs", "install", "--local"},
 	} {
+		if w.FileRemote && args[0] == "config" && args[1] == "lfs.url" {
+			continue // no LFS server: git-lfs itself stores into <remote>/lfs/objects (standalone file transfer)
+		}
 		if _, err := w.git(args...); err != nil {
 			return nil, err
 		}
@@ -449,18 +455,18 @@ func (w *World) Damage(o, how string) error {
 	case "corrupt":
 		b := append([]byte{}, w.Content(o)...)
 		b[len(b)/2] ^= 0x01
-		os.Chmod(p, 0o644)
+		os.Remove(p) // a new inode: the store of a file:// remote may hold a hard link to the old one
 		return os.WriteFile(p, b, 0o644)
 	case "truncated":
 		b := w.Content(o)
-		os.Chmod(p, 0o644)
+		os.Remove(p) // a new inode: the store of a file:// remote may hold a hard link to the old one
 		return os.WriteFile(p, b[:len(b)/2], 0o644)
 	case "extended":
 		b := append(append([]byte{}, w.Content(o)...), []byte("extra")...)
-		os.Chmod(p, 0o644)
+		os.Remove(p) // a new inode: the store of a file:// remote may hold a hard link to the old one
 		return os.WriteFile(p, b, 0o644)
 	case "replaced":
-		os.Chmod(p, 0o644)
+		os.Remove(p) // a new inode: the store of a file:// remote may hold a hard link to the old one
 		return os.WriteFile(p, w.Content("o4"), 0o644)
 	}
 	return fmt.Errorf("unknown damage %s", how)
@@ -476,7 +482,7 @@ func (w *World) OtherPush(b string, oids []string) error {
 		return fmt.Errorf("otherpush: %s", r.All())
 	}
 	for _, o := range oids {
-		w.Srv.Put(repoName, w.Content(o))
+		w.ServerPut(o)
 	}
 	if old.OK() {
 		_, err := w.Env.MustGit(w.Clone, "update-ref", "refs/remotes/origin/"+b, strings.TrimSpace(old.Stdout))
@@ -537,6 +543,15 @@ func (w *World) LocalOids() []string {
 // ServerSet returns the abstract oids the server holds with valid content.
 func (w *World) ServerSet() []string {
 	out := []string{}
+	if w.FileRemote {
+		for rel, b := range gitenv.ListObjects(w.Remote) {
+			if core.Sha(b) == filepath.Base(rel) {
+				out = append(out, w.Abstract(filepath.Base(rel)))
+			}
+		}
+		sort.Strings(out)
+		return out
+	}
 	for _, h := range w.Srv.ValidOids(repoName) {
 		out = append(out, w.Abstract(h))
 	}
@@ -547,11 +562,47 @@ func (w *World) ServerSet() []string {
 // ServerAll returns every oid name stored (valid or not).
 func (w *World) ServerAll() []string {
 	out := []string{}
+	if w.FileRemote {
+		for rel := range gitenv.ListObjects(w.Remote) {
+			out = append(out, w.Abstract(filepath.Base(rel)))
+		}
+		sort.Strings(out)
+		return out
+	}
 	for _, h := range w.Srv.AllOids(repoName) {
 		out = append(out, w.Abstract(h))
 	}
 	sort.Strings(out)
 	return out
+}
+
+// RemoteURL is what the clone's origin points at: the bare repository's path, or a file:// URL of it
+// (then git-lfs has no LFS server and stores into <remote>/lfs/objects itself).
+func (w *World) RemoteURL() string {
+	if w.FileRemote {
+		return "file://" + w.Remote
+	}
+	return w.Remote
+}
+
+// ServerPut makes the server hold object o (somebody else uploaded it).
+func (w *World) ServerPut(o string) {
+	if w.FileRemote {
+		p := gitenv.LocalObjectPath(w.Remote, w.Hex(o))
+		os.MkdirAll(filepath.Dir(p), 0o755)
+		os.WriteFile(p, w.Content(o), 0o444)
+		return
+	}
+	w.Srv.Put(repoName, w.Content(o))
+}
+
+// ServerDelete makes the server lose object o.
+func (w *World) ServerDelete(o string) {
+	if w.FileRemote {
+		os.Remove(gitenv.LocalObjectPath(w.Remote, w.Hex(o)))
+		return
+	}
+	w.Srv.Delete(repoName, w.Hex(o))
 }
 
 // LocalStatus returns abstract oid -> absent|valid|corrupt for the clone's store.
